@@ -264,7 +264,7 @@ def c15(tier, seed):
     for c, bmax in ((100, 100), (12, 1)):
         obs.append(Ob('scrub.md.c%d' % c, S, 'h_md', inject=[SCRUB_REGION], defs={'MD_C': c, 'MD_BMAX': bmax}, unwind=4, small_path=True, solver=KISSAT, timeout=900, mem=6, cost=10,
                       functions=sf('md'), note='divisor %d as at the call site, a symbolic 32-bit, b <= %d' % (c, bmax)))
-    return obs + scrubplan_obs() + [o for o in staterec_obs(tier) if o.name == 'state.i_record.info.roundtrip']
+    return obs + scrubplan_obs() + [o for o in staterec_obs(tier) if o.name == 'state.i_record.info.roundtrip'] + [o for o in syncrd_obs() if o.name == 'scrub.data_reader']
 
 
 def crc_obs(tier):
@@ -828,7 +828,7 @@ def c06(tier, seed):
            solver=KISSAT, defs={'ND': 3 if tier == 'thorough' else 2}, timeout=3000, mem=8, cost=40, replay=False, kind='bounded', bound='2 disk slots (thorough: 3)',
            functions=['state_sync_process: region "proceed with the parity" .. "finally schedule parity write" (cmdline/sync.c, extracted mechanically)'],
            note='every combination of error / I/O error / silent / fixed / needs-update / rehash flags, block states and presence on 3 disks; callees replaced by recording contracts (dfcc)'),
-    ] + sync_fixchk_obs() + fs_obs() + fstree_obs() + scanalloc_obs()
+    ] + sync_fixchk_obs() + fs_obs() + fstree_obs() + scanalloc_obs() + holeruns_obs()
 
 
 def c05(tier, seed):
@@ -959,6 +959,15 @@ MAP_READ = dict(region='map_read', file='cmdline/state.c', begin="} else if (c =
                 prologue='\tint ret;\n\tchar buffer[PATH_MAX];\n\tuint32_t mapping_max = *mapping_max_p;\n\ttommy_array disk_mapping;', epilogue='\t*mapping_max_p = mapping_max;\n\t(void)disk_mapping;')
 
 
+FS_IS_EMPTY = dict(region='fs_is_empty', file='cmdline/elem.c', begin='struct extent_disk_empty {', include_begin=True, end='struct extent_disk_size {', max_lines=60, expect_loops=0, raw=True)
+
+
+def fsempty_obs():
+    return [Ob('elem.fs_is_empty', 'harness/h_fsempty.c', 'h_fs_is_empty', inject=[FS_IS_EMPTY], unwind=4, small_path=True, timeout=600, mem=6, cost=2,
+               functions=['fs_is_empty + extent_disk_empty_compare_unlock (cmdline/elem.c, extracted verbatim)'],
+               note='file / link / directory lists each empty or not, one extent at every position or none, every blockmax; tommy_tree_search_compare by stub applying the real callback')]
+
+
 def maprec_obs():
     regs = [MAP_ASSIGN, MAP_WRITE, MAP_READ]
     return [Ob('state.map_records.roundtrip', 'harness/h_maprec.c', 'h_map_records', inject=regs, unwind=6, small_path=True, timeout=900, mem=8, cost=4, kind='bounded', bound='at most 3 disks in the map list',
@@ -1033,7 +1042,7 @@ def blockruns_obs():
 
 
 def c10(tier, seed):
-    return stream_obs(['h_rt32', 'h_rt64', 'h_rtle32', 'h_rtbs']) + staterec_obs(tier) + blockruns_obs() + frecord_obs() + header_obs() + maprec_obs() + holeruns_obs()
+    return stream_obs(['h_rt32', 'h_rt64', 'h_rtle32', 'h_rtbs']) + staterec_obs(tier) + blockruns_obs() + frecord_obs() + header_obs() + maprec_obs() + holeruns_obs() + fsempty_obs()
 
 
 PROPS = {
